@@ -323,6 +323,42 @@ def searchLoop (forbidden : List Ix) (tg : Targets) : List (List Ix) â†’ Cache â
     | (cache', .ok _ _) => searchLoop forbidden tg rest cache'
     | (cache', r) => (cache', some r)
 
+/-! ## one finder object serving several `search` calls (slicer.py:284-287, 408-429)
+
+`search(max_repeats, temperature, target_size, target_overhead, target_slices)` forwards its
+per-call targets to every `trial` *and* to the final `best`; each of the two resolves an argument
+that is `None` to the attribute set by `__init__` (`_maybe_default`). The cache `self.costs`
+persists between calls. -/
+
+/-- `_maybe_default`, field by field: the per-call value when given, else the constructor's -/
+def Targets.orElse (call ctor : Targets) : Targets :=
+  { size := match call.size with | some s => some s | none => ctor.size,
+    overhead := match call.overhead with | some s => some s | none => ctor.overhead,
+    slices := match call.slices with | some s => some s | none => ctor.slices }
+
+/-- one `search(...)` call: its per-call targets and the oracle answers of its trials -/
+structure Call where
+  over : Targets
+  trials : List (List Ix)
+
+/-- the cache after the trials of one call (whether or not a trial raised: the object and its
+    cache survive an exception) -/
+def callCache (forbidden : List Ix) (tg0 : Targets) (cl : Call) (cache : Cache) : Cache :=
+  (searchLoop forbidden (cl.over.orElse tg0) cl.trials cache).1
+
+/-- the cache after a history of `search` calls on one finder -/
+def sessionCache (forbidden : List Ix) (tg0 : Targets) : List Call â†’ Cache â†’ Cache
+  | [], cache => cache
+  | cl :: rest, cache => sessionCache forbidden tg0 rest (callCache forbidden tg0 cl cache)
+
+/-- what one `search(...)` call returns on a finder whose cache is `cache`: `none` = it raised
+    (a trial raised, or `best` found nothing valid) -/
+def callResult (forbidden : List Ix) (tg0 : Targets) (cl : Call) (cache : Cache) :
+    Option (List Ix Ã— Costs) :=
+  match searchLoop forbidden (cl.over.orElse tg0) cl.trials cache with
+  | (cache', none) => best (cl.over.orElse tg0) cache'
+  | (_, some _) => none
+
 /-! ## the tree's contractions (`from_contraction_tree`, slicer.py:95-112) -/
 
 /-- the tuple built for one internal node `s` of the complete tree `t` -/
